@@ -672,3 +672,16 @@ Proof.
     destruct (traversal_body_costs inst _ _ _ _ _ H) as (total & Ht & Hs & Hp).
     exists total. split; [exact Ht|]. split; [exact Hs|]. intros ->. exact Hp.
 Qed.
+
+(* edge-oriented queries: the composed route starts with the source edge at zero cost in the declared initial state,
+   ends with the target edge at zero cost in the state of ITS OWN last inner edge, and its summary is that state *)
+Lemma edge_oriented_ends : forall (N : Num) (inst : instance N) s t (inner : list (etrav N)) (e : etrav N) r,
+  compose_edge_oriented N inst s t (inner ++ [e]) = Ok r ->
+  r = Build_etrav s zero zero (initial_state (i_sm inst)) :: (inner ++ [e]) ++ [Build_etrav t zero zero (et_state e)]
+  /\ traversal_summary N inst r = Ok (serialize_state (i_sm inst) (et_state e)).
+Proof.
+  intros N inst s t inner e r H. unfold compose_edge_oriented in H. rewrite last_map_some in H. inversion H; subst r.
+  split; [reflexivity|].
+  exact (summary_is_last_state N inst (Build_etrav s zero zero (initial_state (i_sm inst)) :: inner ++ [e])
+                               (Build_etrav t zero zero (et_state e))).
+Qed.
